@@ -46,6 +46,17 @@ def code(name):
         return '0'
 
 
+def group_adj(pairs):
+    """[(key, value)] -> [(key, [values])]: runs of adjacent equal keys (Model/GirConsume.lean groupAdj)"""
+    out = []
+    for k, v in pairs:
+        if out and out[-1][0] == k:
+            out[-1][1].append(v)
+        else:
+            out.append((k, [v]))
+    return out
+
+
 def strip_comments(src):
     src = re.sub(r'/\*.*?\*/', lambda m: re.sub(r'[^\n]', ' ', m.group(0)), src, flags=re.S)
     return src
@@ -876,17 +887,23 @@ def c15RncValues : List (String × String) := %s
 /-- what the scan did not understand (must be empty) -/
 def c15CShape : List String := %s
 
-/-! The same tables with every name written as a natural number (1, then the bytes of the name, base 256):
-    the `decide` obligations of Props/C15.lean are evaluated on these, the kernel compares numbers much
-    faster than strings.  Literals compared case-insensitively are lower-cased. -/
+/-! The accept / fetched / literals tables once more, with every name written as a natural number
+    (1, then the bytes of the name, base 256) and GROUPED by their first component (runs of adjacent
+    equal keys, `groupAdj` of Model/GirConsume.lean): the `decide` obligations of Props/C15.lean are
+    evaluated on these (the kernel compares numbers much faster than strings, and a grouped table is
+    searched in two short steps).  Literals compared case-insensitively are lower-cased.
+    The driver checks on every run that they are the coded, grouped string tables (op c15.coded). -/
 
-def c15CAcceptN : List (Nat × Nat × Nat × Bool × Bool × Bool × Nat × Bool) := [
+/-- state ↦ [(element, handler, needsNodeStack, runsIntrospectablePrelude, switchesState, targetState, pushesNode)] -/
+def c15CAcceptG : List (Nat × List (Nat × Nat × Bool × Bool × Bool × Nat × Bool)) := [
   %s]
 
-def c15CFetchedN : List (Nat × Nat) := [
+/-- handler ↦ [attribute] -/
+def c15CFetchedG : List (Nat × List Nat) := [
   %s]
 
-def c15CLiteralsN : List (Nat × Nat × Nat × Bool) := [
+/-- handler ↦ [(attribute, literal, caseInsensitive)] -/
+def c15CLiteralsG : List (Nat × List (Nat × Nat × Bool)) := [
   %s]
 
 end GIVerif.Gen
@@ -906,10 +923,13 @@ end GIVerif.Gen
        ',\n  '.join('(%s, %s)' % (lean_str(n), lean_list([lean_str(x) for x in st])) for n, st in helpers),
        lean_list(['(%s, %s)' % (lean_str(a), lean_str(v)) for a, v in rnc]),
        lean_list([lean_str(s) for s in SHAPE]),
-       ',\n  '.join('(%s, %s, %s, %s, %s, %s, %s, %s)' % (code(s_), code(e), code(h), b(nn), b(pr), b(sw), code(t), b(pu))
-                    for (s_, e, h, nn, pr, sw, t, pu) in accept),
-       ',\n  '.join('(%s, %s)' % (code(h), code(a)) for h in sorted(fetched) for a in sorted(fetched[h])),
-       ',\n  '.join('(%s, %s, %s, %s)' % (code(h), code(a), code(l.lower() if c else l), b(c)) for (h, a, l, c) in sorted(literals)))
+       ',\n  '.join('(%s, [%s])' % (k, ', '.join(vs)) for k, vs in group_adj(
+           [(code(s_), '(%s, %s, %s, %s, %s, %s, %s)' % (code(e), code(h), b(nn), b(pr), b(sw), code(t), b(pu)))
+            for (s_, e, h, nn, pr, sw, t, pu) in accept])),
+       ',\n  '.join('(%s, [%s])' % (k, ', '.join(vs)) for k, vs in group_adj(
+           [(code(h), code(a)) for h in sorted(fetched) for a in sorted(fetched[h])])),
+       ',\n  '.join('(%s, [%s])' % (k, ', '.join(vs)) for k, vs in group_adj(
+           [(code(h), '(%s, %s, %s)' % (code(a), code(l.lower() if c else l), b(c))) for (h, a, l, c) in sorted(literals)])))
     p, digest, changed = write_if_changed('GirVocabC.lean', text)
     print('gen_girvocab_c: %s sha256=%s changed=%s states=%d accept=%d fetched=%d literals=%d shape=%d'
           % (p, digest[:12], changed, len(states), len(accept), len(fetched_rows), len(lit_rows), len(SHAPE)))
@@ -944,9 +964,9 @@ def c15CEndOther : List (List String × List String) := []
 def c15CHelpers : List (String × List String) := []
 def c15RncValues : List (String × String) := []
 def c15CShape : List String := [%s]
-def c15CAcceptN : List (Nat × Nat × Nat × Bool × Bool × Bool × Nat × Bool) := []
-def c15CFetchedN : List (Nat × Nat) := []
-def c15CLiteralsN : List (Nat × Nat × Nat × Bool) := []
+def c15CAcceptG : List (Nat × List (Nat × Nat × Bool × Bool × Bool × Nat × Bool)) := []
+def c15CFetchedG : List (Nat × List Nat) := []
+def c15CLiteralsG : List (Nat × List (Nat × Nat × Bool)) := []
 end GIVerif.Gen
 ''' % (type(e).__name__, lean_str('translator failed: %s: %s' % (type(e).__name__, str(e)[:200])))
         write_if_changed('GirVocabC.lean', text)
